@@ -77,6 +77,8 @@ MonInit(p) ==
    rel |-> 0,            \* ticks since the (estimated) processing of the last one-shot press (O2m)
    lagq |-> 0,           \* upper bound on the number of inputs not yet processed by kanata
    tapS |-> FALSE,       \* the activation is a clean tap in the sharp zone (O8)
+   fog |-> FALSE,        \* a key the monitor does not track (a macro ...) was pressed since the last quiescent point: its own
+                         \* key presses and releases may end a one-shot, so nothing is REQUIRED to be modified (O2m)
    pend |-> <<>>,        \* other-key presses not output yet: [o, clean, mod]
    down |-> {}, lastIdle |-> TRUE, quiet |-> p.red + 1, err |-> ""]
 
@@ -137,9 +139,9 @@ MonIn(m, r) ==
                 clean == m.held = {} /\ (m.ended = "yes" \/ (IsPress(p) /\ m.used))
                 \* must it come out modified?  (sharp zone only)
                 mod == \/ m.ended = "no" /\ ~m.used /\ m.sharp /\ inSync /\ m.el < m.curT /\ IsPress(p)
-                       \/ ~IsPress(p) /\ m.ended = "no" /\ m.rsharp /\ m.rel + m.lagq < m.curT
+                       \/ ~IsPress(p) /\ m.ended = "no" /\ m.rsharp /\ ~m.fog /\ m.rel + m.lagq < m.curT
                 m1 == [m0 EXCEPT !.used = TRUE, !.afterAct = IF m.ended = "yes" THEN @ ELSE @ \cup {r.c},
-                                 !.sharp = FALSE]
+                                 !.sharp = FALSE, !.fog = @ \/ o < 0]
             IN IF o >= 0 THEN [m1 EXCEPT !.pend = Append(@, [o |-> o, clean |-> clean, mod |-> mod,
                                                             qs |-> QOf(p, m.sure)])]
                ELSE m1
@@ -203,6 +205,7 @@ MonTick(m, out, idle, cb) ==
     IN [m2 EXCEPT !.el = OMin(T, p.T + 2), !.gapIn = 0, !.lastIdle = idle,
                   !.rel = OMin(m.rel + 1, p.T + 2), !.lagq = IF idle THEN 0 ELSE IF m.lagq >= LagCap(p) THEN LagCap(p) ELSE IF m.lagq > 0 THEN m.lagq - 1 ELSE 0,
                   !.rsharp = m2.rsharp /\ ~expired /\ ~stable,
+                  !.fog = m2.fog /\ ~(idle /\ m.lastIdle /\ m.gapIn = 0),
                   !.ended = IF expired \/ stable THEN "yes" ELSE m2.ended,
                   !.chain = IF expired \/ stable THEN {} ELSE m2.chain,
                   !.sure = IF expired \/ stable THEN {} ELSE m2.sure,
@@ -213,7 +216,7 @@ RECURSIVE MonSilent(_, _, _, _)
 MonSilent(m, n, idle, cb) ==
   IF n = 0 \/ m.err # "" THEN m
   ELSE IF m.el >= m.p.T + 2 /\ m.rel >= m.p.T + 2 /\ m.lagq = 0 /\ m.pend = <<>> /\ m.lastIdle = idle /\ idle
-          /\ m.quiet > m.p.red /\ m.gapIn = 0 /\ QOf(m.p, m.plain) \subseteq m.down
+          /\ m.quiet > m.p.red /\ m.gapIn = 0 /\ ~m.fog /\ QOf(m.p, m.plain) \subseteq m.down
           /\ (m.held # {} \/ ((AllQ(m.p) \cap m.down) = {} /\ m.ended = "yes"))
   THEN m
   ELSE MonSilent(MonTick(m, <<>>, idle, cb), n - 1, idle, cb)
